@@ -89,8 +89,8 @@ def desc_nfa(spec, eps, scheme='s'):
     return Desc('nfa', decls, [(p, q, ls) for (p, q), ls in edges.items()], oms, exp, {'Q': Q, 'Sigma': Sg, 'eps': eps})
 
 
-def desc_pda(spec, stack, eps):
-    Q, Sg, Gm, T, q0, F = pda.parts(spec, stack)
+def desc_pda(spec, stack, eps, scheme='s'):
+    Q, Sg, Gm, T, q0, F = pda.parts(spec, stack, scheme)
     edges = collections.OrderedDict()
     for (p, a, u, q, v) in sorted(T):
         edges.setdefault((p, q), []).append('{},{}{}'.format(a or eps, u or eps, v or eps))
@@ -112,8 +112,8 @@ def desc_pda(spec, stack, eps):
     return Desc('pda', decls, [(p, q, ls) for (p, q), ls in edges.items()], list(subsets(om)), exp, {'Q': Q, 'Sigma': Sg, 'Gamma': Gm, 'eps': eps})
 
 
-def desc_tm(spec, blank, default_names=False):
-    Q, sigma, gamma, delta, q0, qa, qr, blank = tm.parts(spec, blank)
+def desc_tm(spec, blank, default_names=False, kw=None):
+    Q, sigma, gamma, delta, q0, qa, qr, blank = tm.parts(spec, blank, **(kw or {}))
     if default_names:
         ren = {'qa': 'accept', 'qr': 'reject'}
         Q = [ren.get(q, q) for q in Q]
@@ -404,14 +404,76 @@ def check_desc(acc, desc, rp, inst0, layout_stride=1, layout_offset=0):
             acc.sample({'kind': desc.kind, 'one_layout': next(iter(layouts(desc)))[1], 'layouts': n})
 
 
+def t_state_regex(acc, shard, nshard):
+    """Non-default state label formats (set names {a,b}, pair names (a,b)) as the exercise checkers use them:
+    well-formed texts parse to the described automaton, ill-formed labels are rejected - also after the same label was
+    accepted under another state_regex earlier in the process."""
+    from gambatools.dfa_algorithms import parse_dfa
+    from gambatools.nfa_algorithms import parse_nfa
+    from gambatools.automaton_algorithms import state_set_regex, state_product_regex, state_word_or_set_regex
+    SETN = ['{}', '{s0}', '{s0,s1}', '{s1}']
+    PAIRN = ['(s0,r0)', '(s0,r1)', '(s1,r0)', '(s1,r1)']
+    n = 0
+    for (n_, k) in ((1, 1), (2, 1), (2, 2)):
+        for idx, spec in spaces.dfas(n_, k):
+            n += 1
+            if n % nshard != shard:
+                continue
+            acc.states += 1
+            for names, regex, parser, label in ((SETN, state_set_regex(), parse_dfa, 'set names'), (PAIRN, state_product_regex(), parse_dfa, 'pair names'),
+                                                 (SETN, state_word_or_set_regex(), parse_dfa, 'word-or-set names'), (['s0', '{s0,s1}', 's1'], state_word_or_set_regex(), parse_dfa, 'mixed names')):
+                _, n2, k2, d, q0, fb = spec
+                Q = names[:n2]
+                Sg = spaces.LETTERS[:k2]
+                delta = {}
+                i = 0
+                for q in Q:
+                    for a in Sg:
+                        delta[q, a] = Q[d[i]]
+                        i += 1
+                F = [Q[j] for j in range(n2) if fb >> j & 1]
+                lines = ['states ' + ' '.join(Q), 'input_symbols ' + ' '.join(Sg), 'initial ' + Q[q0], ('final ' + ' '.join(F)).rstrip()] + ['{} {} {}'.format(p, q, a) for (p, a), q in delta.items()]
+                text = '\n'.join(lines)
+                inst = {'kind': 'dfa', 'state_labels': label, 'text': text}
+                ok, X = core.lib_call(acc, 'parse_dfa', inst, parser, text, state_regex=regex, clause='well-formed description is rejected')
+                acc.transitions += 1
+                if ok:
+                    acc.evals += 1
+                    acc.validated += 1
+                    if c16.f_dfa(X) != {'Q': set(Q), 'Sigma': set(Sg), 'delta': delta, 'q0': Q[q0], 'F': set(F)}:
+                        acc.viol('parse_dfa', 'parsed automaton differs from the described one', inst, observed=str(X)[:300])
+                # ill-formed labels under this format must be rejected
+                for bad in ([Q[0] + '}', '{' + Q[0], Q[0][:-1], Q[0] + ',', '{s0;s1}', '{s0,s1}}', 'q0}'] if label != 'pair names' else ['(s0,r0', '(s0)', 's0,r0)', '(s0,r0,r1)', '(s0,r0))', '(s0, r0)']):
+                    if bad in Q or (label in ('word-or-set names', 'mixed names') and bad.isalnum()):
+                        continue
+                    btext = '\n'.join(l.replace(Q[0], bad) if not l.startswith('input_symbols') else l for l in lines)
+                    if btext == text:
+                        continue
+                    try:
+                        Y = parser(btext, state_regex=regex)
+                    except Exception:
+                        acc.evals += 1
+                        continue
+                    acc.viol('parse_dfa', 'malformed description accepted: state label not matching the state format', dict(inst, text=btext, bad_label=bad), observed=str(Y)[:200])
+                # the same names under the DEFAULT format are ill-formed, also after they were accepted above
+                if label in ('set names', 'pair names'):
+                    for pz in (parse_dfa, parse_nfa):
+                        try:
+                            Y = pz(text)
+                        except Exception:
+                            acc.evals += 1
+                            continue
+                        acc.viol(pz.__name__, 'malformed description accepted: state label not matching \\w+', inst, observed=str(Y)[:200])
+
+
 def make_desc(kind, spec, opt):
     if kind == 'dfa':
         return desc_dfa(spec, opt or 's')
     if kind == 'nfa':
         return desc_nfa(spec, opt[0], opt[1] if len(opt) > 1 else 's')
     if kind == 'pda':
-        return desc_pda(spec, tuple(opt[0]), opt[1])
-    return desc_tm(spec, opt[0], opt[1])
+        return desc_pda(spec, tuple(opt[0]), opt[1], opt[2] if len(opt) > 2 else 's')
+    return desc_tm(spec, opt[0], opt[1], opt[2] if len(opt) > 2 else None)
 
 
 def one(acc, kind, spec, opt, layout_stride=1, layout_offset=0):
@@ -451,6 +513,13 @@ def plan(tier, seed):
         add('nfa', [1, 1, None], [eps], 1, 2)
         add('nfa', [2, 1, 3], [eps], 16, 16 if q else 4)
         add('nfa', [2, 2, 2], [eps, 'q'], 8, 16 if q else 4)
+    tasks.extend(('plain', 'mc.props.c17:t_state_regex', {'shard': s_, 'nshard': 4}) for s_ in range(4))
+    add('nfa', [2, 1, 2], ['_', 'k'], 4, 16 if q else 4)
+    add('nfa', [2, 2, 2], ['ε', 'k'], 4, 32 if q else 8)
+    add('pda', [1, 1, 1, 2], [['%'], '_', 'k'], 1, 8)
+    add('pda', [2, 1, 1, 1], [['%'], 'ε', 'k'], 2, 16)
+    add('tm', [1, 2], ['_', False, {'names': ['epsilon']}], 2, 8 if q else 2)
+    add('tm', [1, 3], ['□', False, {'gamma': ['a', '%', '□'], 'sigma': ['a'], 'names': ['stack_symbols']}], 4, 64 if q else 16, 4 if q else 1)
     for (stack, eps) in ((['x'], '_'), (['$'], 'ε'), (['x'], 'e')):
         add('pda', [1, 1, 1, 3], [stack, eps], 2, 4)
         add('pda', [2, 1, 1, 2], [stack, eps], 16, 64 if q else 16)
@@ -462,4 +531,4 @@ def plan(tier, seed):
             'exhaustive': True,
             'rule': 'every known automaton of the spaces rendered in every well-formed layout (layout stride per space, offset rotating with the instance index) must parse to exactly that automaton with the documented defaults; every single-fault corruption of its canonical text must raise; constructor-guarded corruptions must raise or yield a valid object; every returned object is re-validated by oracle code; non-trivial = automaton with >= 2 edges',
             'assumptions': ['only whole-line % comments are well formed', 'accept/reject lines are omitted only together with the states line and only for states literally named accept/reject',
-                            'non-deterministic TM descriptions are not in the fault list (the property restricts that clause to DFAs)']}
+                            'non-deterministic TM descriptions are not in the fault list (the property restricts that clause to DFAs)', 'state names that are keywords of other formats (accept, reject, blank for NFA / PDA; epsilon, stack_symbols for TM), % as stack / tape symbol, and the set / pair / word-or-set state label formats of the exercise checkers are part of the space']}
